@@ -1,4 +1,5 @@
 import RedactVerif.Props.L2
+import RedactVerif.Proofs.NI
 import RedactVerif.Props.FactsClassify
 /-
 C08 — redactables compose: re-printing is identity, joining is concatenation.
@@ -14,9 +15,18 @@ Proved on the model:
 * closure: the result is again obtainable (`sprintf_wf` in C01), so the
   statement iterates over print-then-reprint histories.
 
-FULL STATEMENT (not yet proved): the same inside slices, maps, structs
-(`contains_raw`), and the concatenation/Join laws. Decided on the real code by
-the P-compose oracle and, for the model, by the P-model correspondence.
+* anywhere: `raw_copy_bytes` — the raw copy appends the redactable *verbatim* to the finished
+  output so far (`finalize`), whatever the buffer held: that is "joining is concatenation" one
+  operand at a time; and the same raw copy is what a redactable gets in every kind of container
+  slot: concretely typed (`printSlot_redactable`: slice/array elements, map keys and values,
+  struct fields exported or not), behind an interface that cannot call methods
+  (`printSlot_redactable_iface_ro`: unexported interface-typed fields) and behind an interface
+  that can (`printSlot_redactable_iface`: through the redactable's own SafeFormat and a nested
+  printer, `runScript_print_redactable`) — under every verb, flag, width and precision.
+
+NOT proved: closed forms for whole formats or containers (e.g. `Sprint([]RedactableString{r1,r2})
+= "[" r1 " " r2 "]"` as one equation) and the Join/JoinTo laws (util.go is not modelled). Decided
+on the real code by the P-compose oracle and, for the model, by the P-model correspondence.
 -/
 namespace Redact
 
@@ -127,6 +137,83 @@ theorem sprintf_reprint_identity (env : Env) (r ty : List Byte) (c : Byte) (h : 
   rw [hq]
   simp only [Res.output, hbuf]
   exact congrArg some (raw_into_empty r h)
+
+/-! ### Anywhere: containers, interfaces, fields -/
+
+
+/-- **A raw copy appends the redactable verbatim to the output so far**: whatever the buffer holds
+(pending safe or unsafe bytes, an open envelope), after `SetMode(raw); Write(r); SetMode(back)` its
+bytes are the finished output as it was (`finalize`) followed by `r`, fully validated, closed. -/
+theorem raw_copy_bytes (b : Buffer) (hi : Inv b) (hm : b.mode ≠ .raw) (r : List Byte) :
+    (((b.setMode .raw).write r).setMode b.mode).buf = b.finalize.buf ++ r ∧
+    (((b.setMode .raw).write r).setMode b.mode).validUntil = (((b.setMode .raw).write r).setMode b.mode).buf.length ∧
+    (((b.setMode .raw).write r).setMode b.mode).markerOpen = false ∧
+    (((b.setMode .raw).write r).setMode b.mode).mode = b.mode := by
+  have ⟨e1, v1, o1⟩ := setMode_buf b .raw hi hm
+  have m1 : (b.setMode .raw).mode = .raw := setMode_mode _ _
+  have hsw : (b.setMode .raw).startWrite = b.setMode .raw :=
+    startWrite_noop _ (fun hc => by rw [m1] at hc; cases hc.1)
+  have ew : (b.setMode .raw).write r = { b.setMode .raw with buf := (b.setMode .raw).buf ++ r } := by
+    unfold Buffer.write; rw [hsw]; rfl
+  have mw : ((b.setMode .raw).write r).mode = .raw := by rw [ew]; exact m1
+  have ow : ((b.setMode .raw).write r).markerOpen = false := by rw [ew]; exact o1
+  have hne : ((b.setMode .raw).write r).mode ≠ b.mode := by rw [mw]; exact fun e => hm e.symm
+  rw [setMode_raw _ _ hne mw ow]
+  refine ⟨?_, rfl, ow, rfl⟩
+  show ((b.setMode .raw).write r).buf = _
+  rw [ew, ← e1]
+
+/-- A redactable in a concretely typed container slot (slice/array element, map key or value,
+struct field — exported or not: `ro`), under any verb: the raw copy. -/
+theorem printSlot_redactable (env : Env) (n : Nat) (p : PP) (r ty : List Byte) (verb depth : Nat) (ro : Bool)
+    (ho : p.override ≠ .ovUnsafe) :
+    printSlot env (n + 1) p (.redactable r ty) verb depth false ro =
+      .ok { p with buf := ((p.buf.setMode .raw).write r).setMode p.buf.mode } := by
+  simp [printSlot, raw_copy p r ho]
+
+/-- The same behind an interface-typed slot that cannot call methods (an unexported field):
+the value is reached by reflection one level down and recognised by its type. -/
+theorem printSlot_redactable_iface_ro (env : Env) (n : Nat) (p : PP) (r ty : List Byte) (verb depth : Nat)
+    (ho : p.override ≠ .ovUnsafe) :
+    printSlot env (n + 2) p (.redactable r ty) verb depth true true =
+      .ok { p with buf := ((p.buf.setMode .raw).write r).setMode p.buf.mode } := by
+  rw [printSlot]
+  simp [isRegistered, isSafeValue, printSlot_redactable env n p r ty verb (depth + 1) true ho]
+
+
+/-- `SafePrinter.Print(r)` from a method running in safe mode: the nested printer's raw copy, handed back. -/
+theorem runScript_print_redactable (env : Env) (n : Nat) (p : PP) (r ty : List Byte)
+    (hm : p.buf.mode = .safeEsc) (ho : p.override ≠ .ovUnsafe) :
+    runScript env (n + 6) p (.print (.cons (.redactable r ty) .nil) .done) =
+      .ok { p with buf := ((p.buf.setMode .raw).write r).setMode p.buf.mode } := by
+  rw [runScript]
+  simp only [Vals.toList]
+  rw [doPrint]
+  simp only [ho, if_true, ne_eq, not_false_eq_true]
+  have e0 : p.buf.setMode .safeEsc = p.buf := setMode_same _ _ hm
+  rw [e0, doPrintLoop]
+  simp only [gt_iff_lt, Nat.lt_irrefl, false_and, if_false]
+  rw [show n + 3 = (n + 1) + 2 from rfl, printArg_redactable env (n + 1) ({ buf := p.buf, override := p.override } : PP) r ty 118 (by decide) ho]
+  simp only [Res.bind]
+  rw [doPrintLoop]
+  simp only
+  rw [runScript]
+  have hmm : (((p.buf.setMode .raw).write r).setMode p.buf.mode).mode = p.buf.mode := setMode_mode _ _
+  rw [setMode_same _ _ hmm]
+
+/-- A redactable behind an interface-typed slot (element of `[]interface{}`, map value, exported
+field): reached through its own `SafeFormat`, which prints it on a nested printer — the raw copy again. -/
+theorem printSlot_redactable_iface (env : Env) (n : Nat) (p : PP) (r ty : List Byte) (verb depth : Nat)
+    (hm : p.buf.mode = .safeEsc) (he : p.erroring = false) (ho : p.override ≠ .ovUnsafe) :
+    printSlot env (n + 8) p (.redactable r ty) verb depth true false =
+      .ok { p with buf := ((p.buf.setMode .raw).write r).setMode p.buf.mode } := by
+  rw [printSlot]
+  simp only [isRegistered, isSafeValue, Bool.not_false, Bool.false_eq_true, and_false, if_false, if_true, and_true]
+  rw [slotMethods]
+  simp only [he, Bool.false_eq_true, if_false, ho, ne_eq, not_false_eq_true, if_true]
+  rw [runScript_print_redactable env n p r ty hm ho]
+  simp [he]
+
 
 /-! Non-vacuity -/
 example : tailBad (startB ++ [0x78] ++ endB) = false ∧ Obtainable (startB ++ [0x78] ++ endB) := by decide
